@@ -10,7 +10,8 @@ deploy, eval a, eval b;  every answer (ok / err) is compared with a reference wr
 added iff no stored model has its namespace or its name; remove drops every stored model that has the namespace or the name;
 replace = remove + add; evaluation is possible exactly for the models that were stored at the last deploy and build, no
 successful modification having happened since (a rejected add is not a modification; what a remove that removes nothing does
-to the deployed models is not stated: evaluations are not compared until the next deploy then).
+to the deployed models is not stated: evaluations are not compared until the next deploy then). A second family runs every history of
+up to 3 operations over two models whose namespaces and names differ by surrounding white space only.
 prints `wsdiff cases=N failures=M`; exit 0 / 2."""
 import itertools
 import os
@@ -77,6 +78,14 @@ def main():
     for k in range(0, n + 1):
         for t in itertools.product(OPS, repeat=k):
             seqs.append(list(t) + PROBE)
+    # namespaces and names with surrounding white space (`~` stands for a space): the texts are taken as they are written, so ( n5 , c ) and
+    # (n5,c) are different models that can be stored side by side, and each is removed by its own text only
+    W = [('~n5~', '~c~'), ('n5', 'c')]
+    wops = ['add:%s,%s' % m for m in W] + ['replace:%s,%s' % m for m in W] + ['remove:%s,%s' % m for m in W] + ['deploy']
+    wprobe = ['eval:~c~', 'eval:c', 'deploy', 'eval:~c~', 'eval:c'] + ['add:%s,%s' % m for m in W] + ['deploy', 'eval:~c~', 'eval:c']
+    for k in range(1, min(n, 3) + 1):
+        for t in itertools.product(wops, repeat=k):
+            seqs.append(list(t) + wprobe)
     with tempfile.NamedTemporaryFile('w', suffix='.txt', delete=False, dir='/var/tmp') as fh:
         for s in seqs:
             fh.write(' '.join(s) + '\n')
